@@ -91,6 +91,8 @@ class Client:
         initial one (the value itself, +- the node id, zero, the node id), so that a value is written again, written over its own
         raw representation, or written next to it (change detection / node-id arithmetic in the integer types)"""
         r = self.r
+        if o is not None and o.get("b31"):
+            return (self.payload(n)[:3] + [0x80 | r.randint(0, 127)])[:n] if n == 4 else self.payload(n)
         if o is None or o["kind"] != "int" or n != len(o["data"]) or r.random() < 0.5:
             return self.payload(n)
         v0 = sum(b << (8 * i) for i, b in enumerate(o["data"]))
@@ -106,7 +108,10 @@ class Client:
             c = 0x23 | ((4 - n) << 2)
         else:
             c = r.choice([0x22, 0x22 | (r.randint(0, 3) << 2)])
-        self.rx([c] + m + (self.value_for(o, n) + self.payload(4 - n)))
+        d4 = self.value_for(o, n) + self.payload(4 - n)
+        if o is not None and o.get("b31"):
+            d4[3] |= 0x80               # (also when the size is not indicated and all four bytes count)
+        self.rx([c] + m + d4)
         if o is not None and o["r"] and r.random() < 0.4:
             self.rx([0x40] + m)                         # read it back at once
         return o
